@@ -120,10 +120,6 @@ def monitor_smem(c):
     if same:
         return None
     known = None
-    if c['emu_ok'] and c['op'] == 4 and not c['pieces_ok']:
-        known = 'smem-dwordx16-unsupported-in-timing'
-    elif c['emu_ok'] and c['start'] % 4 != 0:
-        known = 'smem-unaligned-start'
     what = 's_load opcode %d start 0x%x (lg=%d): ' % (c['op'], c['start'], c['lg'])
     if not c['emu_ok']:
         what += 'emulator panics (%s)' % c.get('emu_err')
@@ -139,8 +135,6 @@ MONITOR = {'init': monitor_init, 'flat': monitor_flat, 'smem': monitor_smem}
 
 KNOWN_TEXT = {
     'flat-dword-straddles-cache-line': 'FLAT access whose dword crosses a cache-line boundary: timing coalescer/write-back panics, emulator completes',
-    'smem-dwordx16-unsupported-in-timing': 's_load_dwordx16 executes in emulation, timing scalar unit panics "opcode 4 is not supported"',
-    'smem-unaligned-start': 's_load with a start address that is not dword aligned: timing write-back panics, emulator completes',
 }
 
 
@@ -157,36 +151,30 @@ def nontrivial(mode, c):
 WORKLOADS_QUICK = [
     ('fir', 256, 'gcn3'), ('matrixtranspose', 64, 'gcn3'), ('simpleconvolution', 32, 'gcn3'),
     ('aes', 1024, 'gcn3'), ('fastwalshtransform', 256, 'gcn3'), ('matrixtranspose', 64, 'cdna3'),
-    ('vectoradd', 1024, 'cdna3'), ('bitonicsort', 256, 'gcn3'),
+    ('vectoradd', 1024, 'cdna3'), ('bitonicsort', 256, 'gcn3'), ('floydwarshall', 32, 'gcn3'),
 ]
 WORKLOADS_THOROUGH = WORKLOADS_QUICK + [
     ('fir', 1024, 'gcn3'), ('floydwarshall', 16, 'gcn3'), ('fastwalshtransform', 1024, 'gcn3'),
-    ('bitonicsort', 128, 'gcn3'), ('matrixtranspose', 128, 'cdna3'), ('fir', 256, 'cdna3'),
-    ('simpleconvolution', 64, 'gcn3'), ('floydwarshall', 64, 'gcn3'),
+    ('bitonicsort', 1024, 'gcn3'), ('matrixtranspose', 128, 'cdna3'), ('fir', 256, 'cdna3'),
+    ('simpleconvolution', 64, 'gcn3'), ('floydwarshall', 64, 'gcn3'), ('bitonicsort', 512, 'cdna3'),
 ]
 # 'emu2' is a second emulation run: buffers are compared with the timing runs only when the two
 # emulation runs leave identical buffers (several benchmarks draw their input from an unseeded PRNG;
 # for those only the -verify outcome, which compares with a CPU reference, is compared)
 PLATFORMS = [('emu', []), ('emu2', []), ('r9nano', ['-timing', '-gpu=r9nano']), ('mi300a', ['-timing', '-gpu=mi300a'])]
 PARALLEL = ('r9nano-parallel', ['-timing', '-gpu=r9nano', '-parallel'])
-# known finding: the "magic" memory copy of the runner reads/writes the global storage behind the
-# caches of the timing platform; kept out of the platform matrix, one witness run every time
 MAGIC = ('r9nano-magic', ['-timing', '-gpu=r9nano', '-magic-memory-copy'])
-MAGIC_WITNESS = ('fir', 256, 'gcn3')
-# known finding: in-place multi-launch benchmarks fail -verify on the timing platforms (pristine tree,
-# stock samples) and pass in emulation: bitonicsort >= 256 elements, floydwarshall 64 nodes
-KNOWN_MULTILAUNCH = {('bitonicsort', 256), ('bitonicsort', 512), ('bitonicsort', 1024), ('floydwarshall', 64)}
+MAGIC_MI = ('mi300a-magic', ['-timing', '-gpu=mi300a', '-magic-memory-copy'])
+EXTRA_PLATFORM_WORKLOADS = {('fir', 256, 'gcn3'), ('bitonicsort', 256, 'gcn3')}
 
 
 def platforms_for(bench, size, arch):
     if arch == 'cdna3':
         ps = [p for p in PLATFORMS if p[0] in ('emu', 'emu2', 'mi300a')]
-    elif (bench, size) in KNOWN_MULTILAUNCH:
-        ps = [p for p in PLATFORMS if p[0] in ('emu', 'emu2', 'r9nano')]
     else:
         ps = list(PLATFORMS)
-    if (bench, size, arch) == MAGIC_WITNESS:
-        ps += [MAGIC, PARALLEL]
+    if (bench, size, arch) in EXTRA_PLATFORM_WORKLOADS:
+        ps += [MAGIC, MAGIC_MI, PARALLEL]
     return ps
 
 
@@ -209,6 +197,36 @@ def run_bench(binary, bench, size, arch, plat, extra, timeout=150):
         res = {'bench': bench, 'verified': False, 'error': 'no result (rc=%d): %s' % (rc, log[-600:]), 'buffers': []}
     res.update({'size': size, 'arch': arch, 'platform': plat, 'cmd': ' '.join(cmd[1:])})
     return res
+
+
+def run_micro(binary, platform, seed, n, only=-1, timeout=240):
+    d = tempfile.mkdtemp(prefix='c02m_', dir=os.environ.get('TMPDIR', '/tmp'))
+    out = os.path.join(d, 'r.json')
+    cmd = [binary, 'micro', '--seed', str(seed), '--n', str(n), '--platform', platform, '--out', out]
+    if only >= 0:
+        cmd += ['--only', str(only)]
+    rc, log = vlib.run(cmd, cwd=d, timeout=timeout)
+    res = None
+    if os.path.exists(out):
+        try:
+            res = json.load(open(out))
+        except Exception:
+            res = None
+    shutil.rmtree(d, ignore_errors=True)
+    return res, log
+
+
+def micro_diff(e, t, plat):
+    """emulation vs timing result of one generated kernel"""
+    for name in ('out', 'out2'):
+        if e[name] != t[name]:
+            i = next(i for i, (x, y) in enumerate(zip(e[name], t[name])) if x != y)
+            return 'buffer %s differs at element %d: emu 0x%08x %s 0x%08x' % (name, i, e[name][i], plat, t[name][i])
+    if e['traces'] != t['traces']:
+        ks = sorted(set(e['traces']) | set(t['traces']))
+        k = next(k for k in ks if e['traces'].get(k) != t['traces'].get(k))
+        return 'executed-instruction sequence of wavefront %s differs: emu %s %s %s (count:hash)' % (k, e['traces'].get(k), plat, t['traces'].get(k))
+    return None
 
 
 def compare_runs(ref, other):
@@ -390,13 +408,7 @@ def main(argv):
                     diffs = compare_runs(ref, r)
                 else:
                     diffs = compare_runs(dict(ref, buffers=[]), dict(r, buffers=[]))
-                if diffs and plat == MAGIC[0]:
-                    known_e2e.append('timing-magic-memory-copy-bypasses-caches: with -timing -magic-memory-copy the driver copies through the global '
-                                     'storage without flushing / invalidating the caches: %s size %d: %s' % (key[0], key[1], '; '.join(diffs)[:200]))
-                elif diffs and (key[0], key[1]) in KNOWN_MULTILAUNCH and not r['verified'] and r.get('buffers'):
-                    known_e2e.append('timing-multi-launch-in-place: %s size %d passes -verify in emulation and fails on %s (stock sample, pristine tree): %s'
-                                     % (key[0], key[1], plat, '; '.join(diffs)[:160]))
-                elif diffs:
+                if diffs:
                     e2e_diffs.append((key, plat, diffs))
         rep.coverage['e2e_workloads_with_deterministic_buffers'] = det
         rep.obligation('end-to-end differential (validation, not proof): %d runs of %d workloads agree with emulation' % (len(runs), len(by)), not e2e_diffs)
@@ -415,6 +427,55 @@ def main(argv):
             if r['verified'] and r['buffers']:
                 distinct.add(vlib.case_hash(['bench', r['bench'], r['size'], r['arch'], r['platform']]))
 
+    # ---- generated micro-kernels on whole platforms (validation only)
+    if replay is None or replay.get('mode') == 'micro':
+        mseed = replay['seed'] if replay else vlib.seed()
+        mn = replay['n'] if replay else (150 if thorough else 40)
+        only = replay['index'] if replay else -1
+        plats = ['emu', 'r9nano', 'mi300a']
+        with ThreadPoolExecutor(max_workers=3) as ex:
+            mres = dict(zip(plats, ex.map(lambda p: run_micro(binary, p, mseed, mn, only), plats)))
+        micro_bad = []
+        ref, elog = mres['emu']
+        if ref is None:
+            micro_bad.append((-1, 'emu', 'the emulation platform did not finish the kernel stream: ' + elog[-400:]))
+        else:
+            for p in plats[1:]:
+                got, log = mres[p]
+                if got is None:
+                    # find the kernel that stops the platform
+                    culprit = -1
+                    for k in ref:
+                        g1, _ = run_micro(binary, p, mseed, mn, k['index'], timeout=60)
+                        if g1 is None:
+                            culprit = k['index']
+                            break
+                    micro_bad.append((culprit, p, 'platform %s does not finish (panic or hang) on generated kernel %d which emulation completes: %s'
+                                      % (p, culprit, log[-300:])))
+                    continue
+                for e, t in zip(ref, got):
+                    dd = micro_diff(e, t, p)
+                    if dd:
+                        micro_bad.append((e['index'], p, 'generated kernel %d (%s, %d x %d work-items): %s' % (
+                            e['index'], ','.join(e['features'] or []), e['num_wg'], e['wg_size'], dd)))
+                        break
+        nk = len(ref or [])
+        rep.obligation('generated micro-kernels (validation, not proof): %d kernels, buffers and per-wavefront instruction sequences agree on r9nano and mi300a' % nk, not micro_bad)
+        rep.coverage['micro_kernels'] = nk
+        rep.coverage['micro_wavefront_traces_compared'] = sum(len(k['traces']) for k in (ref or [])) * 2
+        rep.coverage['micro_features'] = dict(collections.Counter(f for k in (ref or []) for f in (k['features'] or [])))
+        total += nk * 3
+        for k in (ref or []):
+            distinct.add(vlib.case_hash(['micro', k['words'], k['wg_size'], k['num_wg']]))
+        for idx, p, text in micro_bad[:1]:
+            words = next((k['words'] for k in (ref or []) if k['index'] == idx), None)
+            rep.violation({'property': PROP, 'mode': 'micro', 'seed': mseed, 'n': mn, 'index': idx, 'platform': p, 'what': text,
+                           'words': ['%08x' % w for w in words] if words else None,
+                           'disassemble_cmd': 'build/bin*/c02 micro --seed %d --n %d --only %d --print' % (mseed, mn, idx),
+                           'replay_cmd': './check C02 --replay <this file>'}, text=text)
+        if ref:
+            rep.samples.append({'mode': 'micro', 'kernel': ref[0]['index'], 'features': ref[0]['features'],
+                                'words': ['%08x' % w for w in ref[0]['words'][:24]] + ['...']})
     phase('e2e done')
     rep.coverage.update({
         'evaluations': total,
